@@ -273,6 +273,62 @@ theorem c16_no_lost_wakeup (hc : CfgOk maxLen minLen) (hs : Reachable maxLen min
     (ha : r.awt = true) : r.phase = Phase.fetch ∧ r.pos = s.pos ∧ s.closed = false ∧ r.kicked = false :=
   ((reachable_inv hc hs).regs h r hl.1 hl.2).parked ha
 
+/-- `push_lk` unlocks for its wake-up pass and re-locks afterwards; the second lock region changes nothing of the
+queue, so every step that lands *inside* the wake-up pass of a `close()` (a resumed coroutine going straight into
+another `next()`, another thread) already sees `closed = true` (first region, `c16_close_wakes_all`) and all the
+theorems above apply to it: the operation lists quantified over contain the steps between the two regions. -/
+theorem c16_relock_changes_nothing (s : State) :
+    (stepRelock s).1.regs = s.regs ∧ (stepRelock s).1.q = s.q ∧ (stepRelock s).1.pos = s.pos ∧
+    (stepRelock s).1.closed = s.closed ∧ (stepRelock s).1.stream = s.stream ∧ (stepRelock s).1.nextFree = s.nextFree :=
+  ⟨rfl, rfl, rfl, rfl, rfl, rfl⟩
+
+/-- `subscribe()` parks only on a queue whose closed flag is clear (any state, any handle) — together with
+`c16_close_wakes_all` (flag set in the same region that takes the awaiters): nobody can slip in behind a close. -/
+theorem c16_parks_only_when_open (s : State) (h : Nat) (hp : (stepAdvanceSuspend s h).2 = Res.flag true) :
+    s.closed = false := by
+  unfold stepAdvanceSuspend at hp
+  cases hr : s.regs[h]? with
+  | none => rw [hr] at hp; simp at hp
+  | some r =>
+    rw [hr] at hp
+    simp only at hp
+    by_cases hc : r.used = true ∧ r.phase = Phase.idle
+    · rw [if_pos hc] at hp
+      by_cases ha : canAdvance s r
+      · rw [if_pos ha] at hp; simp at hp
+      · rw [if_neg ha] at hp
+        by_cases hk : r.kicked = true
+        · rw [if_pos hk] at hp; simp at hp
+        · cases hcl : s.closed with
+          | false => rfl
+          | true =>
+            exfalso; apply ha
+            refine ⟨by cases h2 : r.kicked <;> simp_all, ?_⟩
+            intro h2; rw [hcl] at h2; cases h2.2
+    · rw [if_neg hc] at hp; simp at hp
+
+/-- Why the order inside `close()` matters: a variant that runs the wake-up pass first and sets the flag in the second
+region lets a subscriber register *during* the pass (here: the coroutine resumed for subscriber 0 goes straight into
+`next()` of subscriber 1) — it ends up parked on a closed queue and no later close wakes it.  (Seeded change
+`c16-closed-flag-late`; replayed on the headers by corpus/c16_reentrant_close.txt.) -/
+theorem c16_late_close_flag_loses_wakeup :
+    ((runAsIs (init none 1)
+        [OpAsIs.op (Op.subRecent 0 Mode.all), OpAsIs.op (Op.subRecent 1 Mode.all),
+         OpAsIs.op (Op.advanceSuspend 0), OpAsIs.closeLateBegin, OpAsIs.op (Op.getValue 0),
+         OpAsIs.op (Op.advance 1), OpAsIs.op (Op.advanceSuspend 1), OpAsIs.closeLateEnd]).regs[1]?.map (·.awt),
+     (runAsIs (init none 1)
+        [OpAsIs.op (Op.subRecent 0 Mode.all), OpAsIs.op (Op.subRecent 1 Mode.all),
+         OpAsIs.op (Op.advanceSuspend 0), OpAsIs.closeLateBegin, OpAsIs.op (Op.getValue 0),
+         OpAsIs.op (Op.advance 1), OpAsIs.op (Op.advanceSuspend 1), OpAsIs.closeLateEnd]).closed)
+      = (some true, true) := by decide
+
+/-- the same history on the code's `close()` (flag first): subscriber 1 is told end of stream instead of parking -/
+theorem c16_close_flag_first_no_lost_wakeup :
+    ((run (init none 1)
+        [Op.subRecent 0 Mode.all, Op.subRecent 1 Mode.all, Op.advanceSuspend 0, Op.close, Op.getValue 0,
+         Op.advance 1, Op.getValue 1, Op.relock]).regs.map (fun r => (r.awt, r.phase)))
+      = [(false, Phase.done), (false, Phase.done)] := by decide
+
 /-- `kick(sub)`: the (first) live registration of that subscriber is marked kicked, its awaiter — if it was parked —
 is taken for resumption, nothing else changes -/
 theorem c16_kick_wakes (s : State) (sid i : Nat) (r : Reg) (hk : kickIdx s.regs sid = some i)
